@@ -250,6 +250,30 @@ func copyRegularFile(src, dst string, perm os.FileMode) error {
 	return dstFile.Close()
 }
 
+// isSubPath reports whether the cleaned local path child lies strictly below
+// the cleaned local path parent.
+func isSubPath(parent, child string) bool {
+	sep := string(filepath.Separator)
+	return strings.HasPrefix(child, strings.TrimSuffix(parent, sep)+sep)
+}
+
+// checkCopyMovePaths refuses a COPY or MOVE whose source and destination are
+// the same resource, whose destination contains the source (replacing the
+// destination would delete the source), or which would copy or move a
+// collection into itself.
+func checkCopyMovePaths(srcPath, dstPath string, recursive bool) error {
+	if srcPath == dstPath {
+		return NewHTTPError(http.StatusForbidden, fmt.Errorf("webdav: source and destination are the same resource"))
+	}
+	if isSubPath(dstPath, srcPath) {
+		return NewHTTPError(http.StatusForbidden, fmt.Errorf("webdav: destination contains the source"))
+	}
+	if recursive && isSubPath(srcPath, dstPath) {
+		return NewHTTPError(http.StatusForbidden, fmt.Errorf("webdav: source contains the destination"))
+	}
+	return nil
+}
+
 func (fs LocalFileSystem) Copy(ctx context.Context, src, dst string, options *CopyOptions) (created bool, err error) {
 	srcPath, err := fs.localPath(src)
 	if err != nil {
@@ -268,6 +292,10 @@ func (fs LocalFileSystem) Copy(ctx context.Context, src, dst string, options *Co
 		return false, errFromOS(err)
 	}
 	srcPerm := srcInfo.Mode() & os.ModePerm
+
+	if err := checkCopyMovePaths(srcPath, dstPath, srcInfo.IsDir() && !options.NoRecursive); err != nil {
+		return false, err
+	}
 
 	if _, err := os.Stat(dstPath); err != nil {
 		if !os.IsNotExist(err) {
@@ -324,6 +352,14 @@ func (fs LocalFileSystem) Move(ctx context.Context, src, dst string, options *Mo
 	}
 	dstPath, err := fs.localPath(dst)
 	if err != nil {
+		return false, err
+	}
+
+	// The source must be checked before the destination is removed
+	if _, err := os.Stat(srcPath); err != nil {
+		return false, errFromOS(err)
+	}
+	if err := checkCopyMovePaths(srcPath, dstPath, true); err != nil {
 		return false, err
 	}
 
